@@ -59,6 +59,9 @@ def configs(tier):
         add("sdr-refresh", "same-bank-gap3", refresh=True, **SDR)
         add("sdr-refresh", "other-bank-altrows-writes-1victim", refresh=True, **SDR)
         add("sdr-depth1-norefresh", "other-bank-mixed", refresh=False, depth=1, **SDR)
+        add("sdr-depth1-norefresh", "same-bank-freeidle", refresh=False, depth=1, **SDR)
+        add("sdr-rt3-wt5-norefresh", "other-bank-reads", refresh=False, read_time=3, write_time=5, **SDR)       # time-outs of the form 2^k + 1
+        add("sdr-rt5-wt3-norefresh", "other-bank-writes", refresh=False, read_time=5, write_time=3, **SDR)
         add("sdr-tccd2-norefresh", "other-bank-reads", refresh=False, timing=dict(tCCD=2), **SDR)
         add("sdr-tccd2-norefresh", "other-bank-writes", refresh=False, timing=dict(tCCD=2), **SDR)
         add("ddr3x4-norefresh", "other-bank-altrows-writes", refresh=False, **DDR3)
@@ -72,6 +75,8 @@ def configs(tier):
             if cls != "any-bank-anything":
                 add("sdr-refresh", cls, refresh=True, **SDR)
         add("sdr-rt8-wt2-norefresh", "other-bank-writes", refresh=False, read_time=8, write_time=2, **SDR)
+        add("sdr-rt9-wt17-norefresh", "other-bank-reads", refresh=False, read_time=9, write_time=17, **SDR)
+        add("sdr-rt2-wt9-refresh", "other-bank-reads", refresh=True, read_time=2, write_time=9, **SDR)
         add("sdr-buffered-d4-norefresh", "other-bank-mixed", refresh=False, buffered=True, depth=4, **SDR)
         add("sdr-depth0-norefresh", "other-bank-mixed", refresh=False, depth=0, **SDR)
         add("sdr-depth1-refresh", "same-bank-gap3", refresh=True, depth=1, **SDR)
